@@ -97,6 +97,15 @@ template<size_t N> std::string runW(const std::vector<std::string>& w)
             std::unique_ptr<uint8_t[]> src(new uint8_t[blk.size() ? blk.size() : 1]);
             if (!blk.empty()) std::memcpy(src.get(), blk.data(), blk.size());
             wb.append(src.get(), blk.size());
+         } else if (o[0] == 'b' || o[0] == 'c' || o[0] == 'd')
+         {
+            // the same bytes handed over through a pointer to a wider type (the length is in bytes)
+            auto blk = vf::unhex(o.substr(1));
+            std::unique_ptr<uint8_t[]> src(new uint8_t[blk.size() ? blk.size() : 1]);
+            if (!blk.empty()) std::memcpy(src.get(), blk.data(), blk.size());
+            if (o[0] == 'b') wb.append(reinterpret_cast<const uint16_t*>(src.get()), blk.size());
+            else if (o[0] == 'c') wb.append(reinterpret_cast<const uint32_t*>(src.get()), blk.size());
+            else wb.append(reinterpret_cast<const double*>(src.get()), blk.size());
          } else if (o[0] == 'n')
          {
             wb.append(static_cast<const uint8_t*>(nullptr), std::stoull(o.substr(1)));
